@@ -64,7 +64,12 @@ Colls(a) == DOMAIN a.colls
 Proj(a) ==
     [colls |-> [c \in Colls(a) |-> a.colls[c].kind],
      store |-> [c \in Colls(a) |-> [n \in DOMAIN a.colls[c].members |-> a.colls[c].members[n].b]],
-     props |-> [c \in Colls(a) |-> a.colls[c].props]]
+     \* which kind-specific properties (colour, description, order) a collection *without a
+     \* stored type* shows follows its guessed kind, which follows its members: for those
+     \* collections only the kind-independent properties are part of the abstract state
+     props |-> [c \in Colls(a) |->
+                  IF a.colls[c].typed THEN a.colls[c].props
+                  ELSE [p \in DOMAIN a.colls[c].props \cap {"displayname", "comment"} |-> a.colls[c].props[p]]]]
 XMap(a, c) == [n \in DOMAIN a.colls[c].members |-> a.colls[c].members[n].x]
 EMap(a, c) == [n \in DOMAIN a.colls[c].members |-> a.colls[c].members[n].e]
 TagOf(a, c) == IF a.colls[c].tags = <<>> THEN 0 ELSE a.colls[c].tags[1]
@@ -87,6 +92,9 @@ WhyProp(why) ==
 ----------------------------------------------------------------------------
 (* 1. Effect of the request: C01 C03 C06 C14 C15                            *)
 
+\* the instructions of a PROPPATCH the server reported as performed (propstat 200)
+InsOK(ev) == SelectSeq(ev.ins, LAMBDA x : x.pst = 200)
+
 Outcome(ev, pre) ==
     LET st == Proj(pre) IN
     CASE ev.op = "Put"    -> PutOutcome(st, [c |-> ev.c, n |-> ev.n, b |-> ev.b,
@@ -97,7 +105,7 @@ Outcome(ev, pre) ==
                                            CurTag(pre, ev.c, ev.n))
       [] ev.op = "Mk"     -> MkOutcome(st, [c |-> ev.c, kind |-> ev.kind])
       [] ev.op = "DeleteColl" -> DeleteCollOutcome(st, [c |-> ev.c])
-      [] ev.op = "Proppatch"  -> ProppatchOutcome(st, [c |-> ev.c, p |-> ev.p, set |-> ev.set, v |-> ev.v])
+      [] ev.op = "Proppatch"  -> ProppatchOutcome(st, [c |-> ev.c, ins |-> InsOK(ev)])
       [] OTHER -> MustSucceed(st)        \* reads, Restart, Lock, Unlock: no change
 
 \* Collection kinds: a collection created without a type ("other") has its type
@@ -121,14 +129,24 @@ EffectMatches(ev, o, pre, post) ==
                     /\ post.colls[ev.c].props[ev.mprops[k].p] = ev.mprops[k].v
            /\ \A c \in Colls(pre) : post.colls[c].props = pre.colls[c].props
            /\ KindsOK(pre, post)
-      [] ev.op = "Proppatch" /\ ~ev.set ->
-           \* after a removal the property may read as a default; nothing else moves
+      [] ev.op = "Proppatch" ->
+           \* document order: the last performed instruction on a property decides; after a
+           \* removal the property may read as a default; nothing else moves
+           LET ins == InsOK(ev)
+               touched == {ins[k].p : k \in DOMAIN ins}
+               LastIns(p) == CHOOSE k \in DOMAIN ins : ins[k].p = p /\ \A j \in DOMAIN ins : ins[j].p = p => j <= k
+           IN
            /\ Proj(post).store = Proj(pre).store
            /\ KindsOK(pre, post)
-           /\ \A c \in Colls(pre) : \A p \in (DOMAIN pre.colls[c].props \cup DOMAIN post.colls[c].props) :
-                 (c # ev.c \/ p # ev.p) =>
-                    /\ p \in DOMAIN pre.colls[c].props /\ p \in DOMAIN post.colls[c].props
-                    /\ pre.colls[c].props[p] = post.colls[c].props[p]
+           /\ \A c \in Colls(pre) :
+                 \A p \in (DOMAIN pre.colls[c].props \cup DOMAIN post.colls[c].props
+                          \cup (IF c = ev.c THEN touched ELSE {})) :
+                    IF c = ev.c /\ p \in touched
+                      THEN ins[LastIns(p)].set =>
+                              /\ p \in DOMAIN post.colls[c].props
+                              /\ post.colls[c].props[p] = ins[LastIns(p)].v
+                      ELSE /\ p \in DOMAIN pre.colls[c].props /\ p \in DOMAIN post.colls[c].props
+                           /\ pre.colls[c].props[p] = post.colls[c].props[p]
       [] OTHER -> SameSP(post, o.st) /\ KindsOK(pre, post)
 
 Unchanged(pre, post) == SameSP(post, Proj(pre)) /\ KindsOK(pre, post)
@@ -138,7 +156,7 @@ IsWrite(ev) == ev.op \in {"Put", "Post", "Delete", "Mk", "DeleteColl", "Proppatc
 
 \* did the server report success for this request?
 Reported(ev) ==
-    IF ev.op = "Proppatch" THEN ev.resp.cls = "ok" /\ ev.pst = 200
+    IF ev.op = "Proppatch" THEN ev.resp.cls = "ok" /\ InsOK(ev) # <<>>
     ELSE ev.resp.cls = "ok"
 
 JudgeEffect(ev, pre, post, i) ==
@@ -321,14 +339,17 @@ JudgeGit(ev, pre, post, i) ==
           /\ ~(ev.op \in {"Mk", "DeleteColl"} /\ ev.c = c)
          THEN LET pg == pre.colls[c].git
                   changed == XMap(pre, c) # XMap(post, c) \/ pre.colls[c].cfg # post.colls[c].cfg
-                  d == Len(g.log) - Len(pg.log) IN
+                  d == Len(g.log) - Len(pg.log)
+                  \* a PROPPATCH with k performed instructions is k property changes: up to k
+                  \* commits, and with k >= 2 the changes may cancel out (set, then remove)
+                  k == IF ev.op = "Proppatch" /\ ev.c = c THEN Len(InsOK(ev)) ELSE 1 IN
               (IF ~IsPrefix(pg.log, g.log)
                  THEN Viol("C09", [w |-> "history-rewritten", c |-> c], i) ELSE {})
               \cup
-              (IF IsPrefix(pg.log, g.log) /\ changed /\ d # 1
+              (IF IsPrefix(pg.log, g.log) /\ changed /\ ~(d >= 1 /\ (d = 1 \/ d <= k))
                  THEN Viol("C09", [w |-> "change-without-exactly-one-commit", c |-> c, commits |-> d], i) ELSE {})
               \cup
-              (IF IsPrefix(pg.log, g.log) /\ ~changed /\ d # 0
+              (IF IsPrefix(pg.log, g.log) /\ ~changed /\ ~(d = 0 \/ (k >= 2 /\ d <= k))
                  THEN Viol("C09", [w |-> "commit-without-change", c |-> c, commits |-> d], i) ELSE {})
          ELSE {})
       : c \in Colls(post) }
